@@ -182,6 +182,72 @@ def run(ctx: Ctx) -> Result:
     res.stats['excluded_signalling_nan_patterns'] = snan
     res.stats['per_function'] = counts
 
+    # --- "integer instructions compute exact results at any magnitude that fits the item limit"
+    from .. import vmrun
+    from ..gen import programs as G
+    N = G.names()
+    irng = ctx.sub_rng('intops')
+    cfg = vmrun.Cfg()
+    def big(rng):
+        c = rng.random()
+        k = rng.choice([1, 7, 8, 15, 31, 52, 53, 54, 63, 64, 65, 127, 128, 255, 256, 1023, 1024, 1025, 2047, 4095, ctx.n(4095, 8100)])
+        if c < .35: n = (1 << k) + rng.randrange(-3, 4)
+        elif c < .7: n = rng.getrandbits(k + 1)
+        elif c < .8: n = rng.randrange(0, 4)
+        else: n = rng.getrandbits(rng.randrange(1, 200))
+        return -n if rng.random() < .4 else n
+    def fits(n): return len(ref_i2b(n)) <= cfg.max_item_size
+    def fdiv(a, b): return a // b if b else None
+    def fmod(a, b): return a % b if b else None
+    OPS = {'ADD_INTS': lambda a, b: {a + b}, 'SUBTRACT_INTS': lambda a, b: {a - b, b - a}, 'MULT_INTS': lambda a, b: {a * b},
+           'DIV_INTS': lambda a, b: {fdiv(a, b), fdiv(b, a)}, 'MOD_INTS': lambda a, b: {fmod(a, b), fmod(b, a)},
+           'DIV_INT': lambda a, b: {fdiv(a, b), fdiv(b, a)}, 'MOD_INT': lambda a, b: {fmod(a, b), fmod(b, a)},
+           'LESS': lambda a, b: {a < b, b < a}, 'LESS_OR_EQUAL': lambda a, b: {a <= b, b <= a}}
+    run_lines, run_outs = [], []
+    nops = 0
+    for it in range(ctx.n(1500, 30000)):
+        if it % 256 == 0 and ctx.expired(): break
+        name = irng.choice(list(OPS))
+        a, b = big(irng), big(irng)
+        if not (fits(a) and fits(b)): continue
+        if name in ('DIV_INT', 'MOD_INT'):
+            if not -2**1000 < b < 2**1000: b = irng.randrange(-300, 300)
+            eb = ref_i2b(b)
+            if len(eb) > 255: continue
+            script = G.push(ref_i2b(a)) + bytes([N[name], len(eb)]) + eb
+        elif name in ('LESS', 'LESS_OR_EQUAL'):
+            script = G.push(ref_i2b(a)) + G.push(ref_i2b(b)) + bytes([N[name]])
+        else:
+            script = G.push(ref_i2b(a)) + G.push(ref_i2b(b)) + bytes([N[name]]) + (b'\x02' if name in ('ADD_INTS', 'SUBTRACT_INTS', 'MULT_INTS') else b'')
+        o = vmrun.run_impl(cfg, {}, script)
+        run_lines.append(vmrun.case_line('RUN', cfg, {}, [script])); run_outs.append(o)
+        res.note_case(('intop', name, a, b)); nops += 1
+        cands = OPS[name](a, b)
+        f = vmrun.fields(o)
+        if f['status'] == 'OK':
+            top = f.get('stack', '-').split(',')[0]
+            got = bytes.fromhex(top) if top not in ('-', 'e') else b''
+            if name in ('LESS', 'LESS_OR_EQUAL'):
+                okv = got in (b'\xff', b'\x00') and (got == b'\xff') in cands
+            else:
+                okv = len(got) > 0 and ref_b2i(got) in cands and got == ref_i2b(ref_b2i(got))
+            if not okv:
+                viol(name, {'a': str(a)[:80] + ('...' if len(str(a)) > 80 else ''), 'b': str(b)[:80], 'script': script.hex()[:400]},
+                     'the exact integer result (minimal two\'s-complement encoding)', 'stack top ' + top[:120])
+        else:
+            excusable = any(c is None for c in cands) or any(c is not None and not isinstance(c, bool) and not fits(c) for c in cands)
+            if not excusable:
+                viol(name, {'a': str(a)[:80], 'b': str(b)[:80], 'script': script.hex()[:400]}, 'the exact integer result (it fits the item limit)', f['status'])
+    res.stats['integer_instruction_cases'] = nops
+    if ctx.driver.available and run_lines:
+        try:
+            for l, r, o in zip(run_lines, ctx.driver.run(run_lines), run_outs):
+                ok, soft, why = vmrun.compare_run(r, o)
+                if not ok and len(res.disagreements) < 50:
+                    res.disagreements.append({'function': 'integer instruction', 'input': l[-200:], 'model': r[:200], 'implementation': o[:200], 'why': why})
+        except DriverCrash as e:
+            res.disagreements.append({'driver': str(e)})
+
     # --- model vs implementation
     if ctx.driver.available:
         try:
